@@ -522,6 +522,12 @@ class LibMap:
 
     # ------------------------------------------------------------------ free functions
     def free_call(self, em, n, name, args, fnt):
+        if name == "yield" and not args and fnt and fnt.replace(" ", "") == "void()noexcept":
+            # std::this_thread::yield(): an interference point of a thread (the spec gives the callee vf_thread_yield a
+            # contract saying what the other threads may write meanwhile); it cannot throw: no exception check follows
+            em.note_proto("vf_thread_yield", "void", [], "std::this_thread::yield")
+            em.callees.setdefault("vf_thread_yield", "std::this_thread::yield (interference point, noexcept)")
+            return "vf_thread_yield()"
         if name in ("min", "max") and not args and fnt and "mersenne_twister_engine<" in fnt:
             m = re.search(r"mersenne_twister_engine<[^,]+,\s*(\d+)", fnt)
             w = int(m.group(1))
